@@ -747,7 +747,7 @@ class Filterbank(ABC):
             chans = np.arange(self.header.nchans)
         chans = np.array(chans).astype("int")
         nchans_extract = len(chans)
-        if np.all(np.logical_or(chans >= self.header.nchans, chans < 0)):
+        if np.any(np.logical_or(chans >= self.header.nchans, chans < 0)):
             msg = f"Selected channels out of range: {chans.min()} to {chans.max()}"
             raise ValueError(msg)
         if outfile_base is None:
